@@ -261,7 +261,11 @@ def main(argv=None):
             except AnalysisError as e:
                 print(f'ANALYSIS-ERROR property={pid}: {e}')
                 r = 2
-            rc = max(rc, r)
+                if any(i['status'] == 'violation' for i in run.items):
+                    # violations found before the anchor was lost are still reported (exit 1 takes precedence)
+                    run.notes.append(f'analysis stopped early: {e}')
+                    r = run.finish()
+            rc = max(rc, r) if 1 not in (rc, r) else 1
         return rc
     except AnalysisError as e:
         print(f'ANALYSIS-ERROR: {e}')
